@@ -73,8 +73,14 @@ def associate_ids(t1, t2, max_diff, offset):
     second_drives = n2 <= n1
     A = np.asarray(t2, float) + offset if second_drives else np.asarray(t1, float)
     B = np.asarray(t1, float) if second_drives else np.asarray(t2, float) + offset
-    mag = max(abs(float(A[0])), abs(float(A[-1])), abs(float(B[0])), abs(float(B[-1])), abs(offset), 1e-300)
+    mag = max(float(np.max(np.abs(A))), float(np.max(np.abs(B))), abs(offset), 1e-300)
     band = 8 * float(np.spacing(mag))
+    # (files may list their poses out of chronological order: the nearest counterpart is searched
+    # among all stamps, the result keeps the driving trajectory's own order)
+    perm = None
+    if np.any(np.diff(B) < 0):
+        perm = np.argsort(B, kind="stable")
+        B = B[perm]
     Bl = B.tolist()
     out = []  # (a, b, diff)
     for a, s in enumerate(A.tolist()):
@@ -89,6 +95,9 @@ def associate_ids(t1, t2, max_diff, offset):
         if max_diff == 0 and 0 < dmin <= band:
             raise Ambiguous("difference within rounding of 0")
         if dmin <= max_diff:
+            if any(o[1] == j for o in out[:-1]):
+                # only possible when the driving stamps are not ascending: outside the documented cases
+                raise Ambiguous("counterpart contested by non-neighbouring poses (unsorted stamps)")
             if out and out[-1][1] == j:
                 if abs(out[-1][2] - dmin) <= band:
                     raise Ambiguous("contested counterpart at equal distance")
@@ -98,6 +107,8 @@ def associate_ids(t1, t2, max_diff, offset):
             out.append((a, j, dmin))
     if not out:
         raise Refuse("SyncException", "no matching timestamps")
+    if perm is not None:
+        out = [(a, int(perm[b]), d) for a, b, d in out]
     return [(b, a) if second_drives else (a, b) for a, b, _ in out]
 
 
